@@ -89,7 +89,59 @@ def restore(src, root):
     shutil.copytree(src, root)
 
 
-def crash_free(ctx, c, metrics, root, use_shim=True):
+def check_completed(ctx, c, root, e, sig, case, listing_exact):
+    """After a COMPLETED update of epoch e: a fresh controller on the same files finds epoch e as the last one, can
+    load it and the best epoch with the parameters stamped for them (every recorded epoch when everything is kept), and -
+    when no crash came before (listing_exact) - the state directory holds exactly the documented files."""
+    cfg = to_cfg(c)
+    bit, keep, fixed = c["best_is_train"], c["keep_last_and_best_only"], c["fmt"] == "fixed"
+    try:
+        ctrl = T.new_controller(cfg, root)
+        last = ctrl.get_last_epoch()
+        best = ctrl.get_best_epoch(bit)
+    except Exception as ex:  # noqa: BLE001
+        ctx.violation(dict(sig, api="restart", symptom="history-unreadable-after-update", type=type(ex).__name__),
+                      dict(case, epoch=e), {"error": str(ex)[-300:]})
+        return False
+    if last != e:
+        ctx.violation(dict(sig, api="restart", symptom="last-epoch-not-the-completed-update"), dict(case, epoch=e),
+                      {"last_epoch": last})
+        return False
+    if fixed and not keep:
+        wanted = [("last", e)]  # documented (constructor warning): only the last epoch's state persists
+    elif keep:
+        wanted = [("last", e), ("best", best)]
+    else:
+        wanted = [("last", e), ("best", best)] + [("recorded", x) for x in range(1, e)]
+    for which, x in wanted:
+        m2, o2 = T.new_model_optim(cfg)
+        try:
+            ctrl.load_model_and_optimizer_for_epoch(m2, o2, x)
+            got = T.read_stamp(m2, o2)
+        except Exception as ex:  # noqa: BLE001
+            ctx.violation(dict(sig, api="load", symptom="checkpoint-missing-after-completed-update", which=which,
+                               type=type(ex).__name__), dict(case, epoch=e),
+                          {"load_epoch": x, "error": str(ex)[-200:], "dir": T.listing(root)})
+            return False
+        if got != (float(x), 100.0 + x):
+            ctx.violation(dict(sig, api="load", symptom="wrong-parameters-after-completed-update", which=which),
+                          dict(case, epoch=e), {"load_epoch": x, "got": got, "dir": T.listing(root)})
+            return False
+    if listing_exact:
+        if fixed:
+            want = ["model.pt", "optim.pt"]
+        elif keep:
+            want = sorted({f"model_{x:03d}.pt" for x in (e, best)} | {f"optim_{x:03d}.pt" for x in (e, best)})
+        else:
+            want = sorted([f"model_{x:03d}.pt" for x in range(1, e + 1)] + [f"optim_{x:03d}.pt" for x in range(1, e + 1)])
+        if T.listing(root) != want:
+            ctx.violation(dict(sig, api="update_for_epoch", symptom="state-dir-not-exactly-the-documented-files"),
+                          dict(case, epoch=e), {"expected": want, "observed": T.listing(root)})
+            return False
+    return True
+
+
+def crash_free(ctx, c, metrics, root, use_shim=True, restarts=()):
     """Uninterrupted run.  Returns per-update event counts, csv after each update, listing after each update,
     or None if the configuration legitimately refuses (documented ValueError about overwriting the best)."""
     cfg = to_cfg(c)
@@ -102,7 +154,13 @@ def crash_free(ctx, c, metrics, root, use_shim=True):
         fs.__enter__()
     try:
         ctrl, m, o = build(cfg, root)
+        sig = {"fmt": c["fmt"], "keep": c["keep_last_and_best_only"], "crash": False,
+               "controller_restarted": bool(restarts)}
         for e, v in enumerate(metrics, 1):
+            if e in restarts:
+                # a new process: new controller, model and optimizer objects, everything reloaded from the files
+                del ctrl, m, o
+                ctrl, m, o = build(cfg, root)
             n0 = len(fs.events) if fs else 0
             try:
                 do_update(ctrl, m, o, e, v, c["best_is_train"])
@@ -114,27 +172,8 @@ def crash_free(ctx, c, metrics, root, use_shim=True):
             counts.append((len(fs.events) - n0) if fs else 0)
             csvs.append(T.csv_text(root))
             lists.append(T.listing(root))
-            # ---- contents of the state directory after a completed update ---------------------
-            last = e
-            best = ctrl.get_best_epoch(c["best_is_train"])
-            if c["fmt"] == "epoch":
-                if c["keep_last_and_best_only"]:
-                    want = sorted({f"model_{x:03d}.pt" for x in (last, best)} | {f"optim_{x:03d}.pt" for x in (last, best)})
-                    if lists[-1] != want:
-                        ctx.violation({"api": "update_for_epoch", "symptom": "state-dir-not-exactly-last-and-best"},
-                                      dict(case, epoch=e), {"expected": want, "observed": lists[-1]})
-                else:
-                    want = sorted([f"model_{x:03d}.pt" for x in range(1, e + 1)] + [f"optim_{x:03d}.pt" for x in range(1, e + 1)])
-                    if lists[-1] != want:
-                        ctx.violation({"api": "update_for_epoch", "symptom": "recorded-epoch-checkpoint-missing"},
-                                      dict(case, epoch=e), {"expected": want, "observed": lists[-1]})
-                    else:
-                        for x in range(1, e + 1):
-                            m2, o2 = T.new_model_optim(cfg)
-                            ctrl.load_model_and_optimizer_for_epoch(m2, o2, x)
-                            if T.read_stamp(m2, o2) != (float(x), 100.0 + x):
-                                ctx.violation({"api": "load", "symptom": "wrong-parameters-loaded", "crash": False},
-                                              dict(case, epoch=x), {"got": T.read_stamp(m2, o2)})
+            if not check_completed(ctx, c, root, e, sig, dict(case, restarts=sorted(restarts)), True):
+                break  # reported; whatever follows would only repeat it
         return {"counts": counts, "csvs": csvs, "lists": lists, "events": list(fs.events) if fs else []}
     finally:
         if fs:
@@ -237,6 +276,8 @@ def recover_and_finish(ctx, c, metrics, root, full, case, second=None, window="o
                                type=type(ex).__name__), case, {"epoch": e, "error": str(ex)[-300:]})
             return False
         upd += 1
+        if not check_completed(ctx, c, root, e, dict(sig0, after_recovery=True), case, False):
+            return False
     if second is not None:
         return None  # the continuation had no update in which the second crash could fall
     final = T.csv_text(root)
@@ -281,6 +322,22 @@ def explore_history(ctx, c, metrics, tier):
         raise RuntimeError(f"HARNESS: shim changes behaviour for {c} {metrics}")
     ctx.traces += 1
     ctx.state([full["csvs"][-1] if full["csvs"] else None, full["lists"][-1] if full["lists"] else None])
+    # object histories: the same run with the controller rebuilt from the files before every subset of the updates
+    # (a restart without a crash) must leave the same history and the same directory after every update
+    ups = list(range(2, len(metrics) + 1))
+    for r in range(1, len(ups) + 1):
+        for sub in itertools.combinations(ups, r):
+            alt = crash_free(ctx, c, metrics, os.path.join(T.SCRATCH, "c16-plain"), use_shim=False, restarts=sub)
+            ctx.case(1, 1)
+            ctx.count("crash_free_runs_with_controller_restarts")
+            if (alt["csvs"], alt["lists"], alt.get("refused_at")) != (full["csvs"], full["lists"], full.get("refused_at")):
+                k = next((i for i, (a, b) in enumerate(zip(alt["csvs"] + [None], full["csvs"] + [None])) if a != b),
+                         min(len(alt["csvs"]), len(full["csvs"])))
+                ctx.violation({"api": "update_for_epoch", "symptom": "restart-without-crash-changes-the-run",
+                               "fmt": c["fmt"], "keep": c["keep_last_and_best_only"]},
+                              {"kind": "crash-free", "c": c, "metrics": list(metrics), "restarts": list(sub)},
+                              {"first_differing_update": k + 1, "restarted": [alt["csvs"][-1:], alt["lists"][-1:]],
+                               "uninterrupted": [full["csvs"][-1:], full["lists"][-1:]]})
     nupd = len(full["counts"])
     cfg = to_cfg(c)
     # snapshots of the directory before each update (crash-free prefix), so a crash run starts there
@@ -368,7 +425,7 @@ def replay(case):
     try:
         c, metrics = case["c"], tuple(case["metrics"])
         if case["kind"] == "crash-free":
-            crash_free(ctx, c, metrics, os.path.join(T.SCRATCH, "c16"))
+            crash_free(ctx, c, metrics, os.path.join(T.SCRATCH, "c16"), restarts=tuple(case.get("restarts", ())))
         else:
             explore_history(ctx, c, metrics, "thorough" if "second" in case else "quick")
     finally:
